@@ -583,6 +583,28 @@ class Plan:
                 cases = [self.new_case(r, vs, cfg, script, f"ctx:{lab}:{c}", ctx=c) for c in cx.ORDER]
                 self.add_group("C16", cases, "contexts")
 
+    # -- E3: the enum ITSELF is the user item named like a prelude / core item (C16)
+    def hostile_enum_names(self, names=("Some", "None", "Ok", "Err", "Option", "Result", "Iterator", "IntoIterator", "DoubleEndedIterator",
+                                        "ExactSizeIterator", "FusedIterator", "From", "Into", "TryFrom", "FromStr", "Copy", "Clone", "Debug",
+                                        "Display", "Formatter", "Error", "Sized", "Default", "Self_", "RangeInclusive", "MaybeUninit", "Map",
+                                        "Copied", "IntoIter", "Iter", "Vec", "String", "Box")):
+        rng = self.rng
+        for r, reals in (("i8", [-3, 5, 6]), ("u16", [0, 1, 2])):
+            gapless = runs_of(reals) == 1
+            vs = decorate(reals, r, rng, "renames", "shuffle", "dec")
+            p = prim.Proj(r)
+            probes = sorted({p.to_model(x + d) for x in reals for d in (-1, 0, 1) if prim.tmin(r) <= x + d <= prim.tmax(r)})
+            script = make_script(vs, r, probes, rng, level="light", str_cap=6, pairs_cap=9)
+            for lab, cfg in kappa_list(gapless):
+                if lab not in ("match_nab", "table_table", "inline", "mixed2", "range"):
+                    continue
+                cases = [self.new_case(r, vs, cfg, script, f"ename:{lab}:E")]
+                for nm in names:
+                    c = self.new_case(r, vs, cfg, script, f"ename:{lab}:{nm}")
+                    c["ename"] = nm
+                    cases.append(c)
+                self.add_group("C16", cases, "contexts")
+
     # -- E2: hostile scopes on TLC shapes with many runs (C16)
     def contexts_on_shapes(self, reprs, per_repr):
         import contexts as cx
@@ -780,6 +802,7 @@ def build_plan(tier, seed):
         pl.spellings(40)
         pl.contexts()
         pl.contexts_on_shapes(["i8", "u64"], 4)
+        pl.hostile_enum_names()
         pl.renamed()
         pl.large([60, 300, 1200])
         pl.large_fixed([("i8", list(range(-128, 128))), ("u8", list(range(0, 256))), ("i8", list(range(-100, 100))),
@@ -797,6 +820,7 @@ def build_plan(tier, seed):
         pl.spellings(200)
         pl.contexts()
         pl.contexts_on_shapes(prim.REPRS, 10)
+        pl.hostile_enum_names()
         pl.renamed()
         pl.large([60, 127, 250, 300, 700, 1200, 2000, 5000])
         pl.large_fixed([("i8", list(range(-128, 128))), ("u8", list(range(0, 256))), ("i8", list(range(-100, 100))),
